@@ -1,0 +1,32 @@
+//go:build verif
+
+// Contracts for the olareg command, read by /verif/govc (comment-only file: no declarations).
+package main
+
+//@ -- C19: every serve flag is registered for its own option with the documented default, and every
+//@ -- option reaches the configuration field it is documented to control.
+
+//@ func newServeCmd(root *rootOpts) (cmd *cobra.Command)
+//@   props C19
+//@   assert [flag-targets]{C19} after "StringArrayVar(&opts.warnings": flag("addr") == addr(opts.addr) && flag("port") == addr(opts.port) &&
+//@        flag("tls-cert") == addr(opts.tlsCert) && flag("tls-key") == addr(opts.tlsKey) && flag("dir") == addr(opts.storeDir) &&
+//@        flag("store-type") == addr(opts.storeType) && flag("store-ro") == addr(opts.storeRO) && flag("api-push") == addr(opts.apiPush) &&
+//@        flag("api-delete") == addr(opts.apiDelete) && flag("api-blob-delete") == addr(opts.apiBlobDel) && flag("api-referrer") == addr(opts.apiReferrer) &&
+//@        flag("rate-limit") == addr(opts.apiRateLimit) && flag("gc-frequency") == addr(opts.gcFreq) && flag("gc-grace-period") == addr(opts.gcGracePeriod) &&
+//@        flag("gc-untagged") == addr(opts.gcUntagged) && flag("gc-referrer-dangling") == addr(opts.gcRefDangling) &&
+//@        flag("gc-referrer-subject") == addr(opts.gcRefWithSubject) && flag("warning") == addr(opts.warnings)
+//@   assert [flag-defaults]{C19} after "StringArrayVar(&opts.warnings": opts.addr == "" && opts.port == 5000 && opts.tlsCert == "" && opts.tlsKey == "" &&
+//@        opts.storeDir == "." && opts.storeType == "dir" && !opts.storeRO && opts.apiPush && !opts.apiDelete && !opts.apiBlobDel && opts.apiReferrer &&
+//@        opts.apiRateLimit == 0 && opts.gcFreq == 900000000000 && opts.gcGracePeriod == 3600000000000 && !opts.gcUntagged && !opts.gcRefDangling &&
+//@        opts.gcRefWithSubject && len(opts.warnings) == 0
+
+//@ func (opts *serveOpts) run(cmd *cobra.Command, args []string) (err error)
+//@   props C19
+//@   requires opts != nil && opts.root != nil
+//@   assert [wiring]{C19} before call olareg.New#1: conf.Storage.ReadOnly == addr(opts.storeRO) && conf.API.PushEnabled == addr(opts.apiPush) &&
+//@        conf.API.DeleteEnabled == addr(opts.apiDelete) && conf.API.Blob.DeleteEnabled == addr(opts.apiBlobDel) &&
+//@        conf.API.Referrer.Enabled == addr(opts.apiReferrer) && conf.Storage.GC.Untagged == addr(opts.gcUntagged) &&
+//@        conf.Storage.GC.ReferrersDangling == addr(opts.gcRefDangling) && conf.Storage.GC.ReferrersWithSubj == addr(opts.gcRefWithSubject) &&
+//@        conf.API.RateLimit == opts.apiRateLimit && conf.Storage.RootDir == opts.storeDir && conf.Storage.GC.Frequency == opts.gcFreq &&
+//@        conf.Storage.GC.GracePeriod == opts.gcGracePeriod && conf.API.Warnings == opts.warnings && conf.HTTP.CertFile == opts.tlsCert &&
+//@        conf.HTTP.KeyFile == opts.tlsKey && conf.Storage.StoreType == storeType
